@@ -406,6 +406,38 @@ func c04Type5Request(p *Prog, r *Report, R1 string) {
 				}
 			}
 			if !okEl {
+				// or: the whole list is copied once into a fresh buffer and element i
+				// is the window [32*i : 32*i+32] of that copy
+				for _, b := range fn.Blocks {
+					for _, in := range b.Instrs {
+						st, ok := in.(*ssa.Store)
+						if !ok {
+							continue
+						}
+						ixa, ok := st.Addr.(*ssa.IndexAddr)
+						if !ok {
+							continue
+						}
+						win, ok := st.Val.(*ssa.Slice)
+						if !ok || win.Low == nil || win.High == nil {
+							continue
+						}
+						if _, fresh := win.X.(*ssa.MakeSlice); !fresh || (s.Of(win.X).String() != list && s.Of(win.X).String() != "make(len("+list+"), copy("+list+"))") {
+							continue
+						}
+						i := s.Of(ixa.Index).String()
+						lo, hi := s.Of(win.Low).String(), s.Of(win.High).String()
+						if lo != "bin<*>(const:32, "+i+")" && lo != "bin<*>("+i+", const:32)" {
+							continue
+						}
+						if hi != "bin<+>(const:32, "+lo+")" && hi != "bin<+>("+lo+", const:32)" {
+							continue
+						}
+						okEl = true
+					}
+				}
+			}
+			if !okEl {
 				probs = append(probs, "element i is not a fresh 32-byte copy of list[32*i:]")
 			}
 		}
